@@ -103,6 +103,11 @@ func (i *Index) Add(r Record, c bgzf.Chunk, placed, mapped bool) error {
 		// Only name references that are present in the index;
 		// unplaced and rejected records do not add a reference.
 		i.refNames = append(i.refNames, refName)
+		if i.nameMap == nil {
+			// Keep the zero Index usable, as it was before
+			// names were entered into the map.
+			i.nameMap = make(map[string]int)
+		}
 		i.nameMap[refName] = rid
 	}
 	return err
